@@ -272,7 +272,7 @@ fn check_inner(s: &'static dyn Proto, c: &Case, st: &mut Stats) -> CaseResult {
 
 pub const BUDGET: Budget = Budget {
     quick: (8, 5, 3),
-    thorough: (60, 24, 10),
+    thorough: (180, 72, 30),
     shrink: 8,
 };
 
